@@ -90,6 +90,33 @@ def run(payload):
                 cases += 1
                 if abs(dv.integral) > 1e-10 * scale:
                     fails.append({"id": "divergence_integral", "grid": repr(grid), "integral": float(dv.integral), "scale": scale})
+        # rates of equations whose conserved field has zero-flux conditions: interpreted and compiled rate integrate to zero
+        from pde import PDE, FieldCollection
+        for grid in [CartesianGrid([(0, 2.0)], [6]), CartesianGrid([(0, 1.5), (0, 2.0)], [4, 5], periodic=[False, True]), SphericalSymGrid((0.5, 2.0), 6)]:
+            ax = grid.axes[0]
+            eqs = {"cahn_hilliard_wetting_wall": (CahnHilliardPDE(bc_c={ax + "-": {"derivative": 0.4}, ax + "+": {"derivative": -0.2}}), None),
+                   "two_fields_bc_per_variable": (PDE({"a": "laplace(a)", "b": "2 * laplace(b)"},
+                                                      bc_ops={"a:laplace": {a_: ("periodic" if grid.periodic[i] else {"value": 0}) for i, a_ in enumerate(grid.axes)}}), 1)}
+            for name, (eq, member) in eqs.items():
+                if member is None:
+                    state = ScalarField(grid, rng.uniform(-1, 1, grid.shape))
+                else:
+                    state = FieldCollection([ScalarField(grid, rng.uniform(-1, 1, grid.shape)) for _ in range(2)])
+                for route in ("interpreted", "numpy", "numba"):
+                    cases += 1
+                    try:
+                        if route == "interpreted":
+                            rate = eq.evolution_rate(state, 0.0)
+                        else:
+                            rate = state.copy()
+                            rate.data[...] = eq.make_pde_rhs(state, backend=route)(state.data, 0.0)
+                    except Exception as e:
+                        fails.append({"id": "rate_error", "equation": name, "route": route, "grid": repr(grid), "error": f"{type(e).__name__}: {e}"})
+                        continue
+                    r = rate if member is None else rate[member]
+                    scale = float(np.sum(np.abs(r.data) * grid.cell_volumes)) + 1e-9
+                    if abs(r.integral) > 1e-10 * scale:
+                        fails.append({"id": "rate_of_conserved_field_does_not_integrate_to_zero", "equation": name, "route": route, "grid": repr(grid), "integral": float(r.integral), "scale": scale})
         # simulations
         for grid in [g for g in grids(rng) if g.num_axes <= 2][: payload.get('sim_grids', 5)]:
             f = ScalarField(grid, rng.uniform(0, 1, grid.shape))
